@@ -12,7 +12,7 @@
 From Coq Require Import ZArith List Bool String.
 From BB Require Import Base.PyBase Model.Items Spec.Utf8 Spec.Data.
 From BB Require Import Proofs.DataInt Proofs.DataUtf8 Proofs.DataSizes Proofs.DataMain.
-From BB Require Import Model.Passes Gen.Sizes Proofs.SizesTable Model.Lexer Model.Parser Proofs.StringLine.
+From BB Require Import Model.Passes Gen.Sizes Proofs.SizesTable Model.Lexer Model.Parser Proofs.StringLine Proofs.EndToEnd.
 Import ListNotations.
 Open Scope Z_scope.
 
@@ -25,6 +25,18 @@ Theorem C10_int : forall name w, In (name, w) shorthand_table -> forall (l : lin
     else Passes.Fail (PAsm l).
 Proof. exact shorthand_passes. Qed.
 Print Assumptions C10_int.
+
+(* ... and from the SOURCE LINE, through the parser model and ALL 16 passes (not only the data passes): `db|dh|dw|dd <literal>`
+   assembles to exactly the documented bytes, or is refused at its line -- for every literal value *)
+Theorem C10_int_line : forall name w, In (name, w) shorthand_table -> forall (l : line) (tok : string) (v : Z),
+  Parser.parse_immediate [tok] l = Parser.FOk (EArith (ANum v)) ->
+  exists it, Parser.parse_item l [name; tok] = Parser.FOk it /\
+    Passes.assemble_items [(l, it)] [] [] false =
+    if (- 2 ^ (8 * w - 1) <=? v) && (v <? 2 ^ (8 * w))
+    then Passes.Done {| Passes.r_chunks := [(l, Passes.CBytes (le_of (Z.to_nat w) (v mod 2 ^ (8 * w))))]; Passes.r_consts := []; Passes.r_labels := [] |}
+    else Passes.Fail (PAsm l).
+Proof. intros name w H l tok v Hp. exact (EndToEnd.short_line_end_to_end l name w tok v H Hp). Qed.
+Print Assumptions C10_int_line.
 
 (* bytes / shorts / ints / longs / longlongs with any number of elements, each written as any token that
    int(tok, 0) reads as v (hypothesis [parsed]; satisfiable: Example C10_seq_example): accepted iff EVERY
